@@ -32,7 +32,10 @@ type RefreshableFileDataSource struct {
 	isInitialized  util.AtomicBool
 	closeChan      chan struct{}
 	watcher        *fsnotify.Watcher
-	closed         util.AtomicBool
+	// watched describes the file the watch was last put on (a watch is on the file, not on its name). Used by
+	// the watcher goroutine only, after Initialize.
+	watched os.FileInfo
+	closed  util.AtomicBool
 }
 
 func NewFileDataSource(sourceFilePath string, handlers ...datasource.PropertyHandler) *RefreshableFileDataSource {
@@ -81,6 +84,7 @@ func (s *RefreshableFileDataSource) Initialize() error {
 		return errors.Errorf("Fail add a watcher on file[%s], err: %+v", s.sourceFilePath, err)
 	}
 	s.watcher = w
+	s.watched, _ = os.Stat(s.sourceFilePath)
 
 	err = s.doReadAndUpdate()
 	if err != nil {
@@ -110,6 +114,7 @@ func (s *RefreshableFileDataSource) Initialize() error {
 						}
 						e := s.watcher.Add(s.sourceFilePath)
 						if e == nil {
+							s.watched, _ = os.Stat(s.sourceFilePath)
 							break
 						}
 						retryCount++
@@ -117,28 +122,26 @@ func (s *RefreshableFileDataSource) Initialize() error {
 						util.Sleep(time.Second)
 					}
 				}
-				_, srcErr := os.Stat(s.sourceFilePath)
-				if ev.Op&fsnotify.Chmod == fsnotify.Chmod && srcErr == nil {
-					// A file that is replaced by a rename over it while it lives on elsewhere - under another
-					// name, or in the hands of a process that has it open - loses a link, and that is all its
-					// watch announces. The file under the watched name may be another one now: the watch is put
-					// on it (again), before it is read below.
+				src, srcErr := os.Stat(s.sourceFilePath)
+				if srcErr == nil && ev.Op&fsnotify.Rename == 0 && (ev.Op&fsnotify.Remove != 0 || s.watched == nil || !os.SameFile(s.watched, src)) {
+					// The file under the watched name is not the file the watch is on (after a removal that is taken
+					// for granted: inode numbers are handed out again). A watch is on the inode:
+					// a file that was moved aside and deleted after a new one had been written in its place, or
+					// replaced by a rename over it, announces its removal (taken for the removal of the source,
+					// that event cleared the rules of the file that is there and ended the datasource); one that
+					// lives on elsewhere - under another name, or in the hands of a process that has it open -
+					// only loses a link, and a change of attributes is all its watch announces. The watch is put
+					// on the file that is there, before it is read below. (Only then: dropping and setting the
+					// watch on every attribute change lost it for good when the file was unreadable for a moment.)
 					_ = s.watcher.Remove(s.sourceFilePath)
 					if e := s.watcher.Add(s.sourceFilePath); e != nil {
 						logging.Error(e, "Failed to add to watcher", "sourceFilePath", s.sourceFilePath)
+					} else {
+						s.watched = src
 					}
 				}
 				if ev.Op&fsnotify.Remove == fsnotify.Remove && srcErr == nil {
-					// Not the file under the watched name: a watch is on the inode, and what was removed is a file
-					// that used to carry the name - moved aside and deleted after a new file had been written in
-					// its place (the events of the old inode were already queued when the watch was moved to the
-					// new file), or replaced by a rename over it. Taken for the removal of the source, the event
-					// cleared the rules of the file that is there and ended the datasource. The file that is there
-					// is (still, or from now on) watched, and read.
 					logging.Warn("[RefreshableFileDataSource] A file that used to be the file source was removed.", "sourceFilePath", s.sourceFilePath)
-					if e := s.watcher.Add(s.sourceFilePath); e != nil {
-						logging.Error(e, "Failed to add to watcher", "sourceFilePath", s.sourceFilePath)
-					}
 				} else if ev.Op&fsnotify.Remove == fsnotify.Remove {
 					logging.Warn("[RefreshableFileDataSource] The file source was removed.", "sourceFilePath", s.sourceFilePath)
 					updateErr := s.Handle(nil)
